@@ -891,3 +891,46 @@ Definition accepted (doc : document) : bool :=
   match impl_validate doc with VErrors [] => true | _ => false end.
 
 End Validate.
+
+(* ---------- the walk's rule invocations, by transformer function, in source order; and RULE_SET
+   with the abort flags.  Proofs/Wiring.v checks them against the lists harness/wiring.py extracts
+   from the current source on every run. ---------- *)
+Definition model_call_sites : list (string * string) := [
+  ("_parse_object_fields", "input-object-field-uniqueness");
+  ("_parse_arguments", "argument-uniqueness");
+  ("_parse_directive", "values-of-correct-type"); ("_parse_directive", "argument-names");
+  ("_parse_directive", "required-arguments"); ("_parse_directive", "directives-are-defined");
+  ("_parse_directives", "directives-are-unique-per-location");
+  ("_parse_field", "directives-are-in-valid-locations");
+  ("_parse_field", "field-selections-on-objects-interfaces-and-unions-types");
+  ("_parse_field", "leaf-field-selections"); ("_parse_field", "values-of-correct-type");
+  ("_parse_field", "argument-names"); ("_parse_field", "required-arguments");
+  ("_parse_fragment_spread", "directives-are-in-valid-locations");
+  ("_parse_inline_fragment", "directives-are-in-valid-locations");
+  ("_parse_inline_fragment", "fragment-spread-type-existence");
+  ("_parse_inline_fragment", "fragments-on-composite-types");
+  ("_parse_fragment_definition", "directives-are-in-valid-locations");
+  ("_parse_fragment_definition", "fragment-spread-type-existence");
+  ("_parse_fragment_definition", "fragments-on-composite-types");
+  ("_parse_variable_definition", "variables-are-input-types");
+  ("_parse_variable_definitions", "variable-uniqueness");
+  ("_parse_operation_definition", "directives-are-in-valid-locations");
+  ("_parse_definitions", "fragment-spreads-must-not-form-cycles");
+  ("_parse_definitions", "operation-name-uniqueness"); ("_parse_definitions", "lone-anonymous-operation");
+  ("_parse_definitions", "single-root-field"); ("_parse_definitions", "fragment-name-uniqueness");
+  ("_parse_definitions", "fragment-spread-target-defined"); ("_parse_definitions", "fragment-must-be-used");
+  ("_parse_definitions", "fragment-spread-is-possible"); ("_parse_definitions", "all-variable-uses-defined");
+  ("_parse_definitions", "all-variables-used"); ("_parse_definitions", "all-variable-usages-are-allowed");
+  ("document_from_ast_json", "executable-definitions")].
+
+Definition model_aborting_rules : list string := ["fragment-spreads-must-not-form-cycles"].
+
+Definition supported_rules : list string := [
+  "executable-definitions"; "operation-name-uniqueness"; "lone-anonymous-operation"; "single-root-field";
+  "field-selections-on-objects-interfaces-and-unions-types"; "leaf-field-selections"; "argument-names";
+  "argument-uniqueness"; "required-arguments"; "fragment-name-uniqueness"; "fragment-spread-type-existence";
+  "fragments-on-composite-types"; "fragment-must-be-used"; "fragment-spread-target-defined";
+  "fragment-spreads-must-not-form-cycles"; "fragment-spread-is-possible"; "values-of-correct-type";
+  "input-object-field-uniqueness"; "directives-are-defined"; "directives-are-in-valid-locations";
+  "directives-are-unique-per-location"; "variable-uniqueness"; "variables-are-input-types";
+  "all-variable-uses-defined"; "all-variables-used"; "all-variable-usages-are-allowed"].
